@@ -26,6 +26,7 @@ HT = "TLX.Quic.HType"
 PT = "TLX.Quic.PType"
 VER = "TLX.Session.Ver"
 QDEC = "TLX.Quic.Session.Dec"
+MLV = "TLX.MainLoop.Version"
 
 HTYPE = {"QuicHeaderType.LONG": (f"{HT}.long", HT), "QuicHeaderType.SHORT": (f"{HT}.short", HT)}
 PTYPE = {f"QuicPacketType.{a}": (f"{PT}.{b}", PT) for a, b in
@@ -34,7 +35,8 @@ PTYPE = {f"QuicPacketType.{a}": (f"{PT}.{b}", PT) for a, b in
 TLSVER = {f"TlsVersion.{a}": (f"{VER}.{b}", VER) for a, b in
           [("SSL30", "ssl30"), ("TLS10", "tls10"), ("TLS11", "tls11"), ("TLS12", "tls12"), ("TLS13", "tls13")]}
 
-IMPORTS = ["TLX.PyRt", "TLX.Quic.Packet", "TLX.Quic.Session", "TLX.Session"]
+IMPORTS = ["TLX.PyRt", "TLX.Quic.Packet", "TLX.Quic.Session", "TLX.Session", "TLX.MainLoop"]
+DECLS = ["/-- the two handlers `run()` hands a frame to -/\ninductive RunAct | tls | quic\n  deriving DecidableEq, Repr\n"]
 
 SPECS = [
     dict(name="get_header_type", file="tlexport/quic/quic_dissector.py", func="get_header_type",
@@ -103,6 +105,36 @@ SPECS = [
          select={"start": "match int.from_bytes(record.record_version"}, params=[("is_tls13", "Bool")], consts=TLSVER,
          places=[("record.record_version", "record_version", "Bytes", "r"), ("record.binary", "binary", "Bytes", "r"),
                  ("self.tls_version", "tls_version", f"Option {VER}", "rw"), ("self.can_decrypt", "can_decrypt", "Bool", "rw")]),
+    # main.py handle_quic_packet: the head (what is read from a long header; `return` on a long header in < 6 bytes) …
+    dict(name="quic_header", file="tlexport/main.py", func="handle_quic_packet",
+         select={"start": "quic_version = QuicVersion.UNKNOWN", "end": "if header_type == QuicHeaderType.LONG:\n    if len(packet_payload)"},
+         params=[("header_type", HT), ("packet_payload", "Bytes")], exits=True,
+         consts={**HTYPE, **{f"QuicVersion.{a}": (f"{MLV}.{b}", MLV) for a, b in [("V1", "v1"), ("V2", "v2"), ("UNKNOWN", "unknown")]}},
+         outs=[("dcid", "Bytes"), ("quic_version", MLV)]),
+    # … the long-header CID test, the short-header candidate choice and the per-candidate test (the sort of the
+    # candidates — `sorted(…, key=lambda …)` — is outside the subset: `MainLoop.sortCids` stays tied by sampling)
+    dict(name="quic_long_cid_test", file="tlexport/main.py", func="handle_quic_packet",
+         select={"if_test": "if len(dcid) > 0 and (dcid in session.client_cids"}, params=[("dcid", "Bytes")],
+         places=[("session.client_cids", "client_cids", "Set Bytes", "r"), ("session.server_cids", "server_cids", "Set Bytes", "r")]),
+    dict(name="quic_short_candidates", file="tlexport/main.py", func="handle_quic_packet",
+         select={"start": "candidates = session.client_cids | session.server_cids", "end": "if session.matches_session_dgram("},
+         params=[], outs=[("candidates", "Set Bytes")],
+         places=[("session.client_cids", "client_cids", "Set Bytes", "r"), ("session.server_cids", "server_cids", "Set Bytes", "r"),
+                 ("session.matches_session_dgram(packet.ip_src, packet.ip_dst, packet.sport, packet.dport)", "on_tuple", "Bool", "r"),
+                 ("packet.ip_src", "ip_src", "Bytes", "r"), ("packet.sport", "sport", "Nat", "r"),
+                 ("session.client_ip", "client_ip", "Bytes", "r"), ("session.client_port", "client_port", "Nat", "r")]),
+    dict(name="quic_short_cid_test", file="tlexport/main.py", func="handle_quic_packet",
+         select={"if_test": "if len(cid) > 0 and cid == packet_payload"}, params=[("cid", "Bytes"), ("packet_payload", "Bytes")]),
+    # main.py run(): what happens to one frame of the capture (the statement `if packet.tcp_packet: … elif packet.udp_packet: …`
+    # of the loop body); the checksum functions are inputs, the two handlers are trace entries
+    dict(name="run_classify", file="tlexport/main.py", func="run", select={"start": "if packet.tcp_packet:"}, params=[], exits=True,
+         places=[("packet.tcp_packet", "tcp_packet", "Bool", "r"), ("packet.udp_packet", "udp_packet", "Bool", "r"),
+                 ("packet.tls_data", "tls_data", "Bytes", "r"), ("args.checksumTest", "checksumTest", "Bool", "r"),
+                 ("args.greasy", "greasy", "Bool", "r"),
+                 ("calculate_checksum_tcp(packet)", "csum_tcp", "Bool", "r"), ("calculate_checksum_udp(packet)", "csum_udp", "Bool", "r")],
+         actions={"handle_packet(packet, args, keylog, sessions, portmap, keep_original_ports, exp_meta=metadata)": "RunAct.tls",
+                  "handle_quic_packet(packet, keylog, quic_sessions, portmap, keep_original_ports)": "RunAct.quic"},
+         action_type="RunAct"),
 ]
 
 THEOREMS = ["TLX.Props.Translated." + s["name"] + "_eq_model" for s in SPECS]
@@ -125,7 +157,7 @@ def translate_all(root, specs=None):
     out = ["/- GENERATED by harness/translate.py (py2lean) from the Python sources of the tree under test — do not edit.",
            "   One definition per translated function; the meaning of the operations is `TLX/PyRt.lean`. -/"]
     out += [f"import {m}" for m in IMPORTS]
-    out += ["namespace TLX.Gen.Py", "open TLX", ""]
+    out += ["namespace TLX.Gen.Py", "open TLX", ""] + DECLS
     problems = []
     cache = {}
     for spec in specs:
